@@ -5,6 +5,7 @@ import (
 	"fmt"
 	"io"
 	"net"
+	"strings"
 	"sync"
 	"time"
 
@@ -200,8 +201,12 @@ func runConnCases(out string, r *rng.R, thorough bool, m *meta) {
 	var coq []string
 	var js []any
 	seen := map[string]bool{}
-	for i, in := range connInputs(r, thorough) {
+	for i, in := range connInputList {
 		if seen[string(in)] {
+			continue
+		}
+		if o := readWith(in, nil); panicInputs[string(in)] || strings.HasPrefix(o.Err, "PANIC") {
+			m.ConnSkippedPanics++
 			continue
 		}
 		seen[string(in)] = true
@@ -271,7 +276,12 @@ func runConnHistory(out string, m *meta, n int) {
 	}
 	pl := &proxyproto.Listener{Listener: tl, ReadHeaderTimeout: 3 * time.Second}
 	defer pl.Close()
-	ins := historyInputs(n)
+	var ins [][]byte
+	for _, in := range historyInputs(n) {
+		if o := readWith(in, nil); !strings.HasPrefix(o.Err, "PANIC") {
+			ins = append(ins, in)
+		}
+	}
 	type held struct {
 		srv, cl     net.Conn
 		early       connObs
